@@ -296,6 +296,19 @@ func (c *Ctx) bitwiseSegs(op byte, a, b *Term) *Term {
 	if len(ra) == 1 && ra[0].base != nil && rb[0].base != nil {
 		return nil
 	}
+	// Splitting pays only when some aligned pair simplifies (a constant piece, or the same piece
+	// on both sides); otherwise keep the plain operator, whose shape the equality rules recognise.
+	progress := false
+	for i := range ra {
+		x, y := ra[i], rb[i]
+		if x.base == nil || y.base == nil || sameSeg(x, y) {
+			progress = true
+			break
+		}
+	}
+	if !progress {
+		return nil
+	}
 	out := make([]seg, 0, len(ra))
 	for i := range ra {
 		x, y := ra[i], rb[i]
